@@ -31,6 +31,8 @@ func c20(p *core.Program, r *core.Report) {
 	r.Rule("R1", "sorted membership: every function that appends to cluster.nodes sorts the list by node ID (sort.Sort(byID(c.nodes))) before any normal return, so the ring order depends only on the IDs, not on join order; setStatic (static host lists, excluded by the statement) is the single frozen exception")
 	r.Rule("R2", "single source of ownership: the consistent hash (Hasher.Hash) is consulted only by partitionNodes and the partition hash (fnv) only by partition; every ownership predicate used by writes, anti-entropy and cleanup (shardNodes, ShardNodes, ownsShard, containsShards) reaches partitionNodes; no other function picks members of cluster.nodes by position")
 	r.Rule("R3", "replica clamp: partitionNodes is abstractly executed for every ordering of {ReplicaN, len(nodes), 0, 1} with ReplicaN >= 0 and len(nodes) >= 1; the number of owners must be min(max(ReplicaN, 1), len(nodes)), and owners are taken at consecutive ring positions modulo len(nodes) (distinct because the count never exceeds len(nodes))")
+	r.Rule("R5", "membership is order-independent: every bool-returning method of Nodes (Contains, ContainsID; ownsShard applies ContainsID to the ring-ordered owner list) is a linear scan of the whole receiver that answers `true` inside the scan and `false` only after it; no binary search or other order-presuming shortcut")
+	c20MembershipScansTheList(p, r)
 	r.NotDecided = "the jump-hash arithmetic and its balance, the distribution of the partition hash; negative replica counts (outside the statement's range 0..9)"
 	pk := p.Pkg("")
 	if pk == nil {
